@@ -4,7 +4,11 @@ import (
 	"fmt"
 	"go/ast"
 	"go/types"
+	yaml "gopkg.in/yaml.v3"
+	"os"
+	"path/filepath"
 	"reflect"
+	"sort"
 	"strings"
 
 	"asverif/internal/gf"
@@ -61,9 +65,14 @@ func runC18(c *Ctx) {
 		}
 	}
 	c.Obs = append(c.Obs[:n], keep...)
+	c.templateStoredUnpruned()
 	// (2) patch shape and equality
 	c.patchProjection("C18.2")
 	c.equalityReadsDataOnly("C18.2")
+	// a candidate revision that clashes by name with an existing revision of equal data is that revision
+	// (returned, never counted as a collision): this is what re-uses the built-in revisions before their
+	// owner references are rewritten
+	c.createLoop()
 	// (3) marker agreement
 	marker, _ := c.P.Lookup(load.HelperPkg, "UpgradeToAdvancedStatefulSetAnn").(*types.Const)
 	if marker == nil {
@@ -243,4 +252,73 @@ func identOfSel(e ast.Expr) *ast.Ident {
 		return x.Sel
 	}
 	return nil
+}
+
+// templateStoredUnpruned: the API server stores spec.template exactly as submitted. In a structural
+// schema a node that declares properties prunes every field it does not list unless it carries
+// x-kubernetes-preserve-unknown-fields: true, so the template node and every node below it that
+// declares properties must carry the marker; otherwise the stored template differs from the built-in
+// one and the revision data no longer compares equal after a migration.
+func (c *Ctx) templateStoredUnpruned() {
+	b, err := os.ReadFile(filepath.Join(c.P.Repo, "manifests", "crd.v1.yaml"))
+	if err != nil {
+		c.Fail("cannot read the CRD: %v", err)
+		return
+	}
+	var doc map[string]interface{}
+	if err := yaml.Unmarshal(b, &doc); err != nil {
+		c.Fail("cannot parse the CRD: %v", err)
+		return
+	}
+	get := func(m interface{}, path ...string) interface{} {
+		cur := m
+		for _, p := range path {
+			mm, ok := cur.(map[string]interface{})
+			if !ok {
+				return nil
+			}
+			cur = mm[p]
+		}
+		return cur
+	}
+	versions, _ := get(doc, "spec", "versions").([]interface{})
+	n := 0
+	for _, v := range versions {
+		vm, _ := v.(map[string]interface{})
+		if served, _ := vm["served"].(bool); !served {
+			continue
+		}
+		vname, _ := vm["name"].(string)
+		for _, field := range []string{"template"} {
+			node, _ := get(vm, "schema", "openAPIV3Schema", "properties", "spec", "properties", field).(map[string]interface{})
+			name := fmt.Sprintf("manifests/crd.v1.yaml: version %s spec.%s", vname, field)
+			if node == nil {
+				c.Bad("C18.1-template-stored-unpruned", name, 0, "the schema has no spec."+field+" node")
+				continue
+			}
+			n++
+			var bad []string
+			var walk func(path string, s map[string]interface{})
+			walk = func(path string, s map[string]interface{}) {
+				keep, _ := s["x-kubernetes-preserve-unknown-fields"].(bool)
+				props, hasProps := s["properties"].(map[string]interface{})
+				if (path == "" || hasProps) && !keep {
+					bad = append(bad, "spec."+field+path)
+				}
+				for k, p := range props {
+					if pm, ok := p.(map[string]interface{}); ok {
+						walk(path+"."+k, pm)
+					}
+				}
+				if items, ok := s["items"].(map[string]interface{}); ok {
+					walk(path+"[]", items)
+				}
+			}
+			walk("", node)
+			sort.Strings(bad)
+			c.Check(len(bad) == 0, "C18.1-template-stored-unpruned", name, 0, "the node and every node below it that declares properties preserve unknown fields: nothing of the pod template is pruned",
+				"the API server prunes fields of the pod template at "+strings.Join(bad, ", ")+": the stored template (and the revision data computed from it) differs from the submitted one")
+		}
+	}
+	c.Floor("C18.1-template-schema-nodes", n, 1)
 }
